@@ -2,7 +2,7 @@
    observation as a list of numbers in exactly the format harness/src/bin/strops.rs prints.
    Definitions only; nothing here is part of a theorem. *)
 From Coq Require Import NArith List Bool Arith.
-From C11 Require Import Model_C11.
+From C11 Require Import Model_C11 ModelD_C11.
 Import ListNotations.
 Local Open Scope N_scope.
 
@@ -22,6 +22,9 @@ Definition enc_flag (r : repr) : list N := [if is_latin1 r then 0 else 1].
 Definition enc_opt_units (o : option repr) : list N := match o with None => [0] | Some r => 1 :: enc_units (units r) end.
 Definition enc_opt_flag (o : option repr) : list N := match o with None => [3] | Some r => enc_flag r end.
 
+Definition enc_surr (l : list (list N + N)) : list N :=
+  N.of_nat (length l) :: flat_map (fun p => match p with inl s => 0 :: enc_units s | inr u => [1; u] end) l.
+
 (* order = U_KEYS of checks/c11.py *)
 Definition unary_obs (r : repr) (p1 p2 : nat) (b : N) : list (list N) :=
   [ enc_nat (len r); enc_bool (is_empty r); enc_units (to_vec r); enc_units (iter r); enc_hash (hash r);
@@ -34,7 +37,9 @@ Definition unary_obs (r : repr) (p1 p2 : nat) (b : N) : list (list N) :=
     enc_units (units (slice r p1 p2)); enc_flag (slice r p1 p2);
     enc_opt_units (string_get r p1 p2); enc_opt_flag (string_get r p1 p2);
     enc_opt_units (get_range r p1 p2); enc_opt_flag (get_range r p1 p2);
-    enc_opt_scalars (to_std_string r); enc_units (to_std_string_lossy r) ].
+    enc_opt_scalars (to_std_string r); enc_units (to_std_string_lossy r);
+    enc_units (display_escaped r); enc_surr (to_std_string_with_surrogates r);
+    enc_units (units (map_valid_segments [] (fun s => s) r)) ].
 
 (* order = B_KEYS *)
 Definition binary_obs (x y : repr) (from : nat) : list (list N) :=
